@@ -125,6 +125,11 @@ def run_one(ctx, profile, seed, run, ops=None, cfg=None, keep_ops=True):
         ctx.seams.bind(None, "sorted")
         ctx.seams.branch = _branch
         res.branch_seq = _bseq
+        _rd = getattr(w, "realdir", None)
+        if _rd:
+            import shutil
+
+            shutil.rmtree(_rd, ignore_errors=True)
     if replay:
         res.ops = list(ops)
     w.event({"end": True, "violation": res.violation and [res.violation["prop"], res.violation["check"], res.violation["step"]], "aborted": bool(res.aborted)})
